@@ -319,6 +319,24 @@ func EncodeRemainLength(r io.ByteReader) (int, error) {
 	return int(vbi), nil
 }
 
+// readRemaining reads the n bytes that follow the fixed header of a packet, with the results of
+// io.ReadFull. n is the Remaining Length declared by the peer (up to 256 MiB) and has not been
+// checked against anything yet, so beyond a small size the buffer grows with the bytes that
+// actually arrive instead of being allocated up front.
+func readRemaining(r io.Reader, n int) ([]byte, error) {
+	if n <= 4096 {
+		b := make([]byte, n)
+		_, err := io.ReadFull(r, b)
+		return b, err
+	}
+	var buf bytes.Buffer
+	m, err := io.CopyN(&buf, r, int64(n))
+	if err == io.EOF && m > 0 {
+		err = io.ErrUnexpectedEOF
+	}
+	return buf.Bytes(), err
+}
+
 // EncodeUTF8String encodes the bytes into UTF-8 encoded strings, returns the encoded bytes, bytes size and error.
 func EncodeUTF8String(buf []byte) (b []byte, size int, err error) {
 	buflen := len(buf)
